@@ -1097,7 +1097,6 @@ func (b *Body) memberNameEscapes(l *Ledger) {
 	l.add("R-ESCSET", "v5", key, b.posOf(nameCall), Violated, "member names are spelled by "+fname(nameCall.Call.StaticCallee())+" → (*encodeState).string, whose U+2028/U+2029 escape does not depend on the escapeHTML flag: with EscapeHTML off a name holding U+2028 is written as \\u2028 (an escape the patch introduces), while the same character in a value stays raw", true)
 }
 
-
 // emitItem: one byte written to a bytes.Buffer — a constant, or a computed value.
 type emitItem struct {
 	ins ssa.Instruction // the write that carries it
